@@ -85,7 +85,7 @@ def run(tier: str) -> Check:
     worst: dict[str, tuple[str, str]] = {}
     total = 0
     for nr, ns, grid in ([(1, 1, GRID), (1, 1, GRID_DASH)] if tier == "quick" else [(2, 1, GRID), (2, 1, GRID_DASH)]):
-        n, bad = check_char_class(fn, construct, nr, ns, grid)
+        n, bad = check_char_class(fn, construct, nr, ns, grid, repo, "src/pest/grammar/expressions/choice.py")
         total += n
         for kind, desc, detail in bad:
             if kind in ("MALFORMED", "RAISES"):
